@@ -773,11 +773,13 @@ static std::string run_kop(const std::vector<std::string>& a)
   }
   if (op == "k.exec")
   {
+    if (!k_exe[I(1)]) return "{\"r\":\"noexe\"}";       /* the parse before failed: executing NULL is not a defined call */
     bloc_bool r = bloc_execute(k_exe[I(1)]);
     return "{\"r\":\"ok\",\"ret\":" + std::to_string((int)r) + "," + k_err() + "}";
   }
   if (op == "k.exec2")
   {
+    if (!k_exe[I(2)]) return "{\"r\":\"noexe\"}";
     bloc_bool r = bloc_execute2(k_ctx[I(1)], k_exe[I(2)]);
     return "{\"r\":\"ok\",\"ret\":" + std::to_string((int)r) + "," + k_err() + "}";
   }
